@@ -368,7 +368,8 @@ def cursor_rules(ctx: Ctx, rule: str):
     from .common import branch_of
     for n in init:
         br = branch_of(sched, n, "forward")
-        a = affine(n.value, lambda e: isinstance(e, ast.Call) and (dotted(e.func) or "").endswith("dateToIdx"), res)
+        from ..order import nearest_resolver
+        a = affine(n.value, lambda e: isinstance(e, ast.Call) and (dotted(e.func) or "").endswith("dateToIdx"), nearest_resolver(sched.node, n))
         if br == "T":
             cnt["fwd"] += 1
             ok = a is not None and a[1] == 0
